@@ -151,6 +151,24 @@ Proof.
     destruct (pass_level T T' k E) as [I1 [I2 I3]]. split; [rewrite A; exact I1|]. split; [apply I2; exact B|apply I3; exact C].
 Qed.
 
+(* ---------- the passes run by the compiler itself with the raw definitions (as ;assert lines are evaluated) ---------- *)
+Lemma Pk_fixed : forall k T, P T = Some T -> Pk k T = Some T.
+Proof. induction k as [|k IH]; intros T H; cbn [Pk]; [reflexivity|]. rewrite H. apply IH. exact H. Qed.
+
+(* expandExpression's loop - substitute until nothing changes - with the definitions as written arrives where k passes
+   arrive, when it is given more than k rounds *)
+Theorem raw_by_passes : forall k T R f, Pk k T = Some R -> textfree R -> (k < f)%nat ->
+  expand_expression f m craw line T = Some (Some R).
+Proof.
+  induction k as [|k IH]; intros T R f H Hr Hf.
+  - cbn [Pk] in H. inversion H; subst T. destruct f as [|f]; [lia|]. cbn [expand_expression].
+    rewrite expand_pass_tokenwise, (expand_plain m craw line R Hr), toks_eqb_refl. reflexivity.
+  - cbn [Pk] in H. destruct (P T) as [T'|] eqn:E; [|discriminate]. destruct f as [|f]; [lia|]. cbn [expand_expression].
+    rewrite expand_pass_tokenwise, E. destruct (toks_eqb T T') eqn:Eq.
+    + apply toks_eqb_eq in Eq. subst T'. rewrite (Pk_fixed k T E) in H. inversion H; subst. reflexivity.
+    + apply IH; [exact H|exact Hr|lia].
+Qed.
+
 (* ---------- the compiler's passes, with the resolved table ---------- *)
 Lemma res_none k : sym_find k raw = None -> sym_find k res = None.
 Proof.
